@@ -8,7 +8,7 @@
  *            script: comma separated  i<hash>:<val> insert, I insert_no_check, r remove, f find,
  *            n find_next, c find_next_with_collision_cb, d lyht_dup (continue on the duplicate)
  *   dict   <size> <script>                     size 0 = lydict_init(); script: +<hex> insert,
- *            -<hex> remove, *<hex> dup
+ *            -<hex> remove, *<hex> dup, =<hex> insert_zc (the buffer must be adopted iff the string is new)
  * A failing assert() of the library ends the script with ABORT (asserts are kept in all builds).
  */
 #include "common.h"
@@ -255,7 +255,7 @@ run_dict(struct vcase *c)
         struct held *h;
         LY_ERR r;
 
-        if ((op != '+') && (op != '-') && (op != '*')) {
+        if ((op != '+') && (op != '-') && (op != '*') && (op != '=')) {
             printf("?");
             break;
         }
@@ -288,6 +288,37 @@ run_dict(struct vcase *c)
                 printf("NULL");
             }
             if (!r) {
+                if (h) {
+                    if (h->ptr != out) {
+                        printf("!ptr");
+                    }
+                    h->cnt++;
+                } else {
+                    held[nheld].key = strdup(p);
+                    held[nheld].ptr = out;
+                    held[nheld].cnt = 1;
+                    nheld++;
+                }
+            }
+            break;
+        case '=':
+            /* zero copy: the dictionary owns the buffer from now on (adopts it or frees it) */
+            buf = malloc(len + 1);
+            memcpy(buf, s, len);
+            buf[len] = 0;
+            r = lydict_insert_zc(&fctx, buf, &out);
+            SEP();
+            printf("%d=", (int)r);
+            if (out) {
+                vputhex(out, strlen(out));
+            } else {
+                printf("NULL");
+            }
+            if (!r) {
+                /* adopted exactly when the string was not there */
+                if ((out == buf) != (h == NULL)) {
+                    printf("!zc");
+                }
                 if (h) {
                     if (h->ptr != out) {
                         printf("!ptr");
